@@ -113,10 +113,12 @@ PROPS = {
         technique="field-read census over koto_format's MIR against the AST's ADT facts; HIR arm list",
     ),
     "C13": dict(
-        rules=[R("iters", "rule_iter_copy"), R("iters", "rule_iter_err"), R("iters", "rule_iter_lazy")],
+        rules=[R("iters", "rule_iter_copy"), R("iters", "rule_iter_err"), R("iters", "rule_iter_lazy"),
+               R("narrow", "rule_cursor")],
         clause="Copies own copied inner iterators (R-ITER-COPY); iterator outputs that may carry an error are never "
                "dropped, including by std consumers that discard items (R-ITER-ERR); adaptor constructors pull nothing "
-               "from their source (R-ITER-LAZY). Not decided: the sequences adaptors produce (cursor arithmetic), pull "
+               "from their source (R-ITER-LAZY); exhausted iterators whose cursor overshoots can still be asked for their "
+               "size hint (R-CURSOR). Not decided: the sequences adaptors produce (cursor arithmetic), pull "
                "order inside next().",
         technique="type walk over ADT facts + MIR def-use (handle fields, output evidence) + call-graph reachability",
     ),
@@ -131,14 +133,16 @@ PROPS = {
     ),
     "C06": dict(
         rules=[R("borrow", "rule_borrow"), R("arith", "rule_arith"), R("arith", "rule_rem_zero"), R("arith", "rule_accum"),
-               R("arith", "rule_num_wrap"), R("narrow", "rule_narrow"), R("narrow", "rule_vm_regs")],
+               R("arith", "rule_num_wrap"), R("narrow", "rule_narrow"), R("narrow", "rule_vm_regs"),
+               R("narrow", "rule_cursor")],
         clause="Panic families visible in code shape: a RefCell guard of a shared container held across re-entrant or "
                "aliasing code (R-BORROW); script-supplied i64 values reaching overflow-/zero-/shift-checked arithmetic "
                "with no dominating guard of the needed kind (R-ARITH, R-REM-ZERO); digit accumulators in input-driven "
                "loops without a bound inside the loop (R-ACCUM); the number tower itself never uses checked integer "
                "arithmetic (R-NUM-WRAP); the compiler's byte-width arithmetic and narrowing casts on program-size "
                "quantities are bounded (R-NARROW), and the VM does not add to a frame's register count in byte "
-               "arithmetic (R-VM-REGS). Not decided: panic-freedom in general (unwrap/index sites justified by data "
+               "arithmetic (R-VM-REGS); an iterator cursor that can step past its input's length is compared with it "
+               "before `len - cursor` (R-CURSOR). Not decided: panic-freedom in general (unwrap/index sites justified by data "
                "invariants are out of scope and counted as undecided where met).",
         technique="guard live-range dataflow over MIR x whole-workspace call graph (CHA + callback-through-bounds "
                   "edges); Assert-terminator census with dominating-guard classification",
